@@ -133,7 +133,7 @@ def scenario(sim: Sim) -> None:
     kind = ["flat", "composed"][ch.weighted("kind", [2, 3])]
     n0 = ch.int_between("nstreams", 1, 5)
     used: list[int] = []
-    tree = fc.gen_tree(ch, n0, ch.int_between("depth", 1, 3), allow_sub=(kind == "composed"), allow_div=True, used=used)
+    tree = fc.gen_tree(ch, n0, ch.int_between("depth", 1, sim.scale(3, 4)), allow_sub=(kind == "composed"), allow_div=True, used=used)
     from props.c06 import _remap
 
     remap = {s: j for j, s in enumerate(sorted(set(used)))}
@@ -143,7 +143,7 @@ def scenario(sim: Sim) -> None:
     top_naz = bool(ch.draw("top_naz", 2)) if kind == "composed" else False
     if tree[0] in ("leaf", "sub"):
         top_naz = False  # the engine is used directly, no top-level build() is involved
-    rounds = ch.int_between("rounds", 4, 25)
+    rounds = ch.int_between("rounds", 4, sim.scale(25, 60))
     divisors = _divisor_leaves(tree)
     rate = ch.choice("corrupt_rate", [3, 1, 6])
     kinds: list[list[str]] = []
